@@ -3,7 +3,7 @@ from engines.arena_prop import run_arena_property
 
 def run(ctx):
     return run_arena_property(ctx, ["BumpProof.Props.C15", "BumpProof.Props.Hist2@C15"],
-        runs_quick=[('prepared', 200, 100)],
+        runs_quick=[('prepared', 700, 100)],
         runs_thorough=[('prepared', 8000, 200)],
         fields=(0, 2, 5, 6), extra_oracles=(),
         note='prepare leaves positions untouched / commit advance theorems on the model + correspondence + position-snapshot oracle on the implementation')
